@@ -257,8 +257,13 @@ def asset_tables(ctx: Ctx) -> None:
     for r in [x for x in body_walk(f.node) if isinstance(x, ast.Return)]:
         rets.setdefault(try_ev(ctx, f, r.value), []).append([(ast.unparse(a), pol) for a, pol in facts(ctx, f, r)])
     if okr:
-        want1 = [(f"any((re.search(preset, {root[0]}.lower()) for preset in {sn}.presets))", True)]
-        okr = want1 in rets.get(True, [])
+        okr = False
+        for r in [x for x in body_walk(f.node) if isinstance(x, ast.Return) and try_ev(ctx, f, x.value) is True]:
+            fsr = facts(ctx, f, r)
+            if len(fsr) == 1 and fsr[0][1]:
+                mm = match("any((re.search($p, $r.lower()) for $p in $s.presets))", fsr[0][0])
+                if mm is not None and ast.unparse(mm["r"]) == root[0] and ast.unparse(mm["s"]) == sn:
+                    okr = True
     ctx.expect("R-SYM", f, "presets are searched in the lower-cased file stem", okr, "", str(rets), node=f.node)
     okx = any((f"{sn}.match_by_extension and extensions.match({path}, *{sn}.extensions)", True) in fs or
               ((f"{sn}.match_by_extension", True) in fs and (f"extensions.match({path}, *{sn}.extensions)", True) in fs) for fs in rets.get(True, []))
